@@ -94,6 +94,12 @@ def run(ctx, res):
             for name, got, m in (('luafmt', fm, mo[2 * n + 2 * i]), ('astecho', ae, mo[2 * n + 2 * i + 1])):
                 exp = 'ok ' + hx(got) if isinstance(got, bytes) else 'err'
                 g = m if m.startswith('ok') else 'err'
+                if exp != g and tag == 'malformed' and exp == 'err' and g.startswith('ok') and missing_condition(src):
+                    # model gap, malformed input only: `if then` / `elseif then` (no condition) is parsed by the implementation into a
+                    # pair (None, block) that its writers take for an `else` branch and then fail loudly (AssertionError);
+                    # the model writes the tokens back.  Both are "no silent loss".
+                    res.count('known-model-gap:missing-condition')
+                    continue
                 if exp != g and not (tag == 'malformed' and C08.empty_parens(src)):
                     if exp == 'err' and g.startswith('ok') and paren_prefix(src):
                         # defect 16 (known finding): the implementation's tree loses the parentheses of a prefix expression and its
@@ -163,6 +169,15 @@ def ctx_spec(ctx, text):
     if text not in _spec_cache:
         _spec_cache[text] = ctx.model.run(['speclex ' + hx(text)])[0]
     return _spec_cache[text]
+
+
+def missing_condition(src):
+    """an `if`/`elseif` keyword directly followed (up to trivia) by `then` or `do`"""
+    toks = [t for t in (L.impl_lex([src])[1] or []) if type(t).__name__ not in ('TokSpace', 'TokNewline', 'TokComment')]
+    for a, b in zip(toks, toks[1:]):
+        if type(a).__name__ == 'TokKeyword' and a._data in (b'if', b'elseif') and type(b).__name__ == 'TokKeyword' and b._data in (b'then', b'do'):
+            return True
+    return False
 
 
 def paren_prefix(src):
